@@ -507,11 +507,24 @@ SPECIAL_OK = (Symbol, Integer, Rational, Float)
 def micro_only(e1, e2):
     """the two expressions differ only in which of the three micro prefixes (u, U+00B5, U+03BC) they print"""
     n = lambda e: str(e).replace("µ", "u").replace("μ", "u")
-    return n(e1) == n(e2)
+    return str(e1) != str(e2) and n(e1) == n(e2)
 
 
 def rt_check(u, which):
     """print/parse check of one unit: None, or (class, detail)"""
+    r = _rt_check(u, which)
+    if r is not None and not r[0].startswith("print-raises"):
+        try:
+            exotic = sorted({type(a).__name__ for a in u.expr.atoms() if not isinstance(a, SPECIAL_OK)})
+        except Exception:
+            exotic = []
+        if exotic:
+            # the unit itself is outside Mul/Pow/Symbol/rational-number (nan, I, irrational exponent ...): one family
+            return ("exotic-expression", "[%s] %s: %s" % ("+".join(exotic), r[0], r[1]))
+    return r
+
+
+def _rt_check(u, which):
     f = str if which == "str" else repr
     try:
         s = f(u)
@@ -522,14 +535,10 @@ def rt_check(u, which):
     except UnitParseError as e:
         if "Δ" in s:
             cls = "delta-degree-sign"
-        elif u.expr == 1:
+        elif u.expr == 1 and "dimensionless" not in u.registry.lut:
             cls = "dimensionless-name-missing"
         else:
-            try:
-                sp = sorted({type(a).__name__ for a in u.expr.atoms() if not isinstance(a, SPECIAL_OK)})
-            except Exception:
-                sp = []
-            cls = ("special-atom:" + "+".join(sp)) if sp else "other"
+            cls = "other"
         return ("reparse-fails:" + cls, "%s(u) = %r -> %s" % (which, s[:80], str(e)[-120:]))
     except Exception as e:
         return ("reparse-raises:%s" % type(e).__name__, "%s(u) = %r -> %r" % (which, s[:80], e))
@@ -541,7 +550,12 @@ def rt_check(u, which):
         if u.base_offset != 0 and u2.base_offset == 0 and not u.expr.is_Symbol:
             return ("offset-lost-in-product", "%r: offset %r, re-read %r" % (s[:80], u.base_offset, u2.base_offset))
         return ("offset", "%r: offset %r, re-read %r" % (s[:80], u.base_offset, u2.base_offset))
-    if math.isfinite(u.base_value) and u.base_value != 0 and not same_value(float(u2.base_value), float(u.base_value)):
+    if not same_value(float(u2.base_value), float(u.base_value)):
+        if any(v == 0 or not math.isfinite(v) for v in (u.base_value, u2.base_value)):
+            # one of the two computations left the float range in an intermediate product
+            return ("scale:float-range", "%r: base_value %r, re-read %r" % (s[:80], u.base_value, u2.base_value))
+        if same_value(float(u2.base_value), -float(u.base_value)):
+            return ("scale:sign", "%r: base_value %r, re-read %r" % (s[:80], u.base_value, u2.base_value))
         return ("scale", "%r: base_value %r, re-read %r" % (s[:80], u.base_value, u2.base_value))
     try:
         coeff = u.expr.as_coeff_Mul()[0]
@@ -551,10 +565,10 @@ def rt_check(u, which):
         if not (u2.expr == u.expr):
             if u.expr == 1:
                 cls = "expr:dimensionless-one"
-            elif micro_only(u.expr, u2.expr):
-                cls = "expr:micro-sign"
             elif any(not a.is_positive for a in u.expr.atoms(Symbol)):
                 cls = "expr:non-positive-symbol"
+            elif micro_only(u.expr, u2.expr):
+                cls = "expr:micro-sign"
             else:
                 cls = "expr"
             return (cls, "%r: expr %r re-read as %r" % (s[:80], u.expr, u2.expr))
